@@ -228,6 +228,7 @@ class C20(Property):
         "Flatland.C20.Proofs.update_object_untouched",
         "Flatland.C20.Proofs.set_by_object_reads_partial",
         "Flatland.C20.Proofs.C20_full_fails",
+        "Flatland.C20.Proofs.set_by_object_values",
         "Flatland.C20.Proofs.object_roundtrip",
     ]
     level_text = "proof"
